@@ -13,9 +13,11 @@ KSI_IMPORT_TLV_TEMPLATE(KSI_PublicationRecord);
 #define PHEAD (T0 + 86400ULL * 40 + 3)      /* "calendar head" used when no publication time is requested */
 
 enum { R_CORRECT = 0, R_WRONG_ID, R_WRONG_AGGR_TIME, R_WRONG_PUB_TIME, R_SHAPE, R_OTHER_INPUT, R_RIGHT_ALTERED, R_RIGHT_REMOVED, R_RIGHT_ADDED,
-       R_LEFT_ALTERED, R_STATUS, R_ERROR_PDU, R_BAD_MAC, R_NO_CHAIN, R_NO_AGGR_TIME_FIELD, R_OTHER_VERSION, R_EMPTY, R_NREPLY };
+       R_LEFT_ALTERED, R_STATUS, R_ERROR_PDU, R_BAD_MAC, R_NO_CHAIN, R_NO_AGGR_TIME_FIELD, R_OTHER_VERSION, R_EMPTY,
+       R_EXTRA_RIGHT_LOWEST, R_EXTRA_LEFT_LOWEST, R_EXTRA_RIGHT_HIGHEST, R_DROP_LOWEST, R_NREPLY };
 static const char *RNAME[R_NREPLY] = {"correct", "wrong-id", "wrong-aggr-time", "wrong-pub-time", "shape", "other-input", "right-altered", "right-removed",
-                                      "right-added", "left-altered", "status", "error-pdu", "bad-mac", "no-chain", "no-aggr-time-field", "other-version", "empty"};
+                                      "right-added", "left-altered", "status", "error-pdu", "bad-mac", "no-chain", "no-aggr-time-field", "other-version", "empty",
+                                      "extra-right-lowest", "extra-left-lowest", "extra-right-highest", "drop-lowest"};
 static const uint64_t STATUSES[] = {0x0101, 0x0102, 0x0103, 0x0104, 0x0105, 0x0106, 0x0107, 0x0200, 0x0201, 0x0202, 0x0300, 0x0301, 0x999};
 #define NSTATUS ((int)(sizeof STATUSES / sizeof *STATUSES))
 
@@ -80,6 +82,11 @@ static void handler(const unsigned char *req, size_t n, vbuf *resp, void *user) 
 		case R_RIGHT_ALTERED: { int k = S.sub, hit = 0; for (i = 0; i < cal.ncal; i++) if (!cal.cal[i].is_left && k-- == 0) { cal.cal[i].sib[5] ^= 1; hit = 1; break; } if (!hit) for (i = 0; i < cal.ncal; i++) if (!cal.cal[i].is_left) { cal.cal[i].sib[5] ^= 1; break; } break; }
 		case R_LEFT_ALTERED: for (i = 0; i < cal.ncal; i++) if (cal.cal[i].is_left) { cal.cal[i].sib[6] ^= 1; break; } break;
 		case R_NO_AGGR_TIME_FIELD: cal.cal_has_aggr = 0; break;
+		case R_EXTRA_RIGHT_LOWEST: case R_EXTRA_LEFT_LOWEST:   /* a surplus link below the leaf position */
+			if (cal.ncal < RS_MAXCAL) { memmove(&cal.cal[1], &cal.cal[0], sizeof(rlink) * (size_t)cal.ncal); cal.ncal++; ref_link_imprint(&cal.cal[0], S.reply == R_EXTRA_LEFT_LOWEST, RH_SHA256, 4242, 0); }
+			break;
+		case R_EXTRA_RIGHT_HIGHEST: if (cal.ncal < RS_MAXCAL) { ref_link_imprint(&cal.cal[cal.ncal], 0, RH_SHA256, 4243, 0); cal.ncal++; } break;
+		case R_DROP_LOWEST: if (cal.ncal > 1) { memmove(&cal.cal[0], &cal.cal[1], sizeof(rlink) * (size_t)(cal.ncal - 1)); cal.ncal--; } break;
 		case R_RIGHT_REMOVED: for (i = 0; i < cal.ncal; i++) if (!cal.cal[i].is_left) { memmove(&cal.cal[i], &cal.cal[i + 1], sizeof(rlink) * (size_t)(cal.ncal - i - 1)); cal.ncal--; break; } break;
 		case R_RIGHT_ADDED: for (i = 0; i < cal.ncal && cal.ncal < RS_MAXCAL; i++) if (!cal.cal[i].is_left) { memmove(&cal.cal[i + 1], &cal.cal[i], sizeof(rlink) * (size_t)(cal.ncal - i)); cal.ncal++; break; } break;
 		default: break;
@@ -305,7 +312,7 @@ static void run(void) {
 		if (ver == 1 && !(reply <= R_WRONG_ID || reply == R_OTHER_VERSION || reply == R_RIGHT_ALTERED)) continue;
 		if (!VF_THOROUGH) {
 			if (tr == 1 && reply > R_WRONG_ID && reply != R_RIGHT_ALTERED) continue;
-			if ((tail == 0 || tail == 2) && !(reply == R_CORRECT || reply == R_RIGHT_ALTERED || reply == R_OTHER_INPUT || reply == R_SHAPE)) continue;
+			if ((tail == 0 || tail == 2) && !(reply == R_CORRECT || reply == R_RIGHT_ALTERED || reply == R_OTHER_INPUT || reply == R_SHAPE || reply >= R_EXTRA_RIGHT_LOWEST)) continue;
 		}
 		for (sub = 0; sub < nsub; sub++) {
 			if (!VF_THOROUGH && sub > 1) continue;
